@@ -579,6 +579,9 @@ def run(rep, sub=False):
         # the stage set of the push-constant range is part of this property's statement; its wiring is decided by C13's rules
         from common import include
         include(rep, 'c13', ('C13.stages', 'C13.wiring', 'C13.fallback', 'C13.selection', 'C13.iff'), 'push-constant-stages')
+    # the section reaches the assembled output unconditionally (shared rule, lib/sections.py)
+    from sections import check_wiring
+    check_wiring(rep, 'C03.section-wiring', ['pub mod bind_groups', 'PUSH_CONSTANT_STAGES'], 'visibility-sections')
 
 
 def module_param(crate, q, is_module):
